@@ -28,6 +28,17 @@ def messagesOf (acc : Bytes) : List SendOp → List Bytes
   | (d, fl) :: rest =>
     if fl = 1 then (acc ++ d) :: messagesOf [] rest else messagesOf (acc ++ d) rest
 
+/-- `Message.GetRemainingBytes` on a fresh inbound message: `ReadFrame` until a frame whose end
+    flag is non-zero; everything read, or the first error (a wire that ends before the
+    end-of-message frame is an error, never a short message). -/
+def Stream.recvRestAux (s : Stream) (acc : Bytes) : List WireFrame → Except Err (Stream × Bytes × List WireFrame)
+  | [] => .error .eof
+  | f :: w =>
+    match s.recvFrameWithEnd f with
+    | .error e => .error e
+    | .ok (s1, d, flag) =>
+      if flag ≠ 0 then .ok (s1, acc ++ d, w) else s1.recvRestAux (acc ++ d) w
+
 /-- The application loop: `ReceiveCompleteMessage` until the first error; what it was handed. -/
 def Stream.deliverFuel : Nat → Stream → List WireFrame → List Bytes
   | 0, _, _ => []
